@@ -8,6 +8,7 @@ L and s; late or duplicate deliveries contribute nothing and do not move L.
 -/
 import LA.Proofs.ReasmOrder
 import LA.Proofs.StateFacts
+import LA.Gen.ReasmFacts
 
 namespace LA.Reasm
 
@@ -207,3 +208,10 @@ end LA.Reasm
 /-- Outside `init`, no function of the root package writes a package-level variable, hands the address of one to a function or calls a
 sync/atomic method on one (regenerated list, see LA.Proofs.StateFacts): all state is in the object the model is given. -/
 theorem C03_state_is_in_the_object : LA.StateFacts.ofPkg "" = [] := by decide
+
+/-- No component of a Reassembler's state counts operations in fewer than 64 bits: no integer field of at most 32 bits,
+anywhere below the struct, grows by a constant small step per delivery, per call or per Close (read off running
+Reassemblers through reflection on every run, fields found by behaviour, not by name; harness/cmd/extract/reasmfacts.go).
+The model's state has sequence numbers, a flag and sizes, no counters; a counter that wraps after 2^32 events (a few hours
+of a busy host, far beyond any history a check can run) would make whatever is decided from it wrong from then on. -/
+theorem C03_no_narrow_operation_counters : LA.Gen.ReasmFacts.narrowCounters = [] := by decide
